@@ -5,6 +5,7 @@ reopen loses the entry.  Repair: fixes/D08-journal-grow-until-fits.diff (grow to
 The witness checks the C08 statement directly (journal == plain list, also after reopen) for records
 larger than the file; on a repaired tree it returns no violation."""
 import os
+import shutil
 import time
 
 from harness.corr import journal_lib as lib
@@ -71,5 +72,9 @@ def run(ctx):
 def replay(ctx, violation):
     jm = lib.load_journal(ctx.repo)
     size = int((violation.get("replay") or {}).get("size", 5000))
-    p = scenario(jm, os.path.join(ctx.tmpdir(), "d08-journal"), size)
+    tmp = ctx.tmpdir()
+    try:
+        p = scenario(jm, os.path.join(tmp, "d08-journal"), size)
+    finally:
+        shutil.rmtree(tmp, ignore_errors=True)      # ./check --replay does not clean up the ctx
     return {"violated": p is not None, "signature": lib.D8_SIGNATURE if p else None, "what": p, "size": size, "tree": ctx.repo}
